@@ -162,4 +162,11 @@ theorem length_reverseAux'' {α} (a b : List α) : (List.reverseAux a b).length 
 theorem reverseAux_nil_iff {α} (a b : List α) : List.reverseAux a b = [] ↔ a = [] ∧ b = [] := by
   simp [List.reverseAux_eq]
 
+theorem head_append'' {α} (a b : List α) (h : a ≠ []) : (a ++ b).head? = a.head? := by
+  cases a with
+  | nil => exact absurd rfl h
+  | cons x t => simp
+
+theorem nil_append'' {α} (b : List α) : ([] : List α) ++ b = b := by simp
+
 end FuncAdl
